@@ -293,14 +293,19 @@ Inductive mode := MRead | MOpen | MMeta.
    is false the preallocated NumPy arrays of the implementation behave in ways
    the model does not follow (broadcast errors, zero padding) and the harness
    does not compare values. *)
-Definition rd_all (data : bytes) : res (list tok * bool) :=
-  do st <- rd_metadata data false (Some (blen data)) false;
+Definition rd_all_from (src : bytes) (is_index : bool) (data : bytes) : res (list tok * bool) :=
+  do st <- rd_metadata src is_index (Some (blen data)) false;
   do h <- build_hierarchy (rs_om st);
   do recv <- rd_eager st h data;
   let chan_data c := match alookup (ch_path c) recv with Some d => d | None => None end in
   Ok (TZ (match rs_version st with Some v => v | None => 0 end) ::
       obs_hierarchy h (fun c => obs_cdata (chan_data c)) ++ obs_status st,
       forallb (fun c => cdata_consistent (ch_len c) (chan_data c)) (all_channels h)).
+
+Definition rd_all (data : bytes) : res (list tok * bool) := rd_all_from data false data.
+
+(* TdmsFile.read(path) with a .tdms_index file beside it: metadata from the index *)
+Definition rd_all_idx (data index : bytes) : res (list tok * bool) := rd_all_from index true data.
 
 (* metadata-only observation: TdmsFile.read_metadata / open / index file *)
 Definition rd_meta_obs (src : bytes) (is_index : bool) (file_size : option Z) (want_index : bool)
@@ -324,5 +329,13 @@ Definition agree_meta (src : bytes) (is_index : bool) (file_size : option Z) (wa
   match rd_meta_obs src is_index file_size want_index, o with
   | Err _, None => true
   | Ok t, Some t' => toks_eqb t t'
+  | _, _ => false
+  end.
+
+Definition agree_all_idx (data index : bytes) (o : option (list tok)) : bool :=
+  match rd_all_idx data index, o with
+  | Err _, None => true
+  | Ok (t, true), Some t' => toks_eqb t t'
+  | Ok (_, false), _ => true
   | _, _ => false
   end.
